@@ -103,29 +103,66 @@ func labelEdges(fn *ssa.Function, atoms []Atom) map[edge]bool {
 	return cut
 }
 
+// succsVia returns the successors of b that are feasible when b is entered from pred: when b ends in an If on
+// a boolean phi of b (the value of a materialised && / ||, or of a flag variable) and the phi's operand for
+// that predecessor is a constant, only the matching branch can be taken.
+func succsVia(pred, b *ssa.BasicBlock) []*ssa.BasicBlock {
+	if pred == nil || len(b.Succs) != 2 || len(b.Instrs) == 0 {
+		return b.Succs
+	}
+	iff, ok := b.Instrs[len(b.Instrs)-1].(*ssa.If)
+	if !ok {
+		return b.Succs
+	}
+	c := NormCond(iff.Cond)
+	if c.Op != token.ILLEGAL {
+		return b.Succs
+	}
+	ph, ok := c.X.(*ssa.Phi)
+	if !ok || ph.Block() != b {
+		return b.Succs
+	}
+	for i, p := range b.Preds {
+		if p != pred || i >= len(ph.Edges) {
+			continue
+		}
+		v, ok := boolConst(ph.Edges[i])
+		if !ok {
+			return b.Succs
+		}
+		if v != c.Neg {
+			return b.Succs[:1]
+		}
+		return b.Succs[1:]
+	}
+	return b.Succs
+}
+
+type blockVia struct{ b, via int }
+
 // reachableWithout reports whether block target is reachable from the entry
 // when the given edges are removed.
 func reachableWithout(fn *ssa.Function, target *ssa.BasicBlock, cut map[edge]bool) bool {
 	if len(fn.Blocks) == 0 {
 		return false
 	}
-	seen := make([]bool, len(fn.Blocks))
-	stack := []*ssa.BasicBlock{fn.Blocks[0]}
-	seen[0] = true
+	type item struct{ pred, b *ssa.BasicBlock }
+	seen := map[blockVia]bool{}
+	stack := []item{{nil, fn.Blocks[0]}}
 	for len(stack) > 0 {
-		b := stack[len(stack)-1]
+		it := stack[len(stack)-1]
 		stack = stack[:len(stack)-1]
-		if b == target {
+		if it.b == target {
 			return true
 		}
-		for _, s := range b.Succs {
-			if cut[edge{b.Index, s.Index}] {
+		for _, s := range succsVia(it.pred, it.b) {
+			if cut[edge{it.b.Index, s.Index}] {
 				continue
 			}
-			// a self-edge cut must not hide the target when target==b handled above
-			if !seen[s.Index] {
-				seen[s.Index] = true
-				stack = append(stack, s)
+			k := blockVia{s.Index, it.b.Index}
+			if !seen[k] {
+				seen[k] = true
+				stack = append(stack, item{it.b, s})
 			}
 		}
 	}
@@ -155,22 +192,23 @@ func GuardedAvoiding(in ssa.Instruction, avoid map[*ssa.BasicBlock]bool, atoms .
 	if avoid[fn.Blocks[0]] {
 		return true
 	}
-	seen := make([]bool, len(fn.Blocks))
-	stack := []*ssa.BasicBlock{fn.Blocks[0]}
-	seen[0] = true
+	type item struct{ pred, b *ssa.BasicBlock }
+	seen := map[blockVia]bool{}
+	stack := []item{{nil, fn.Blocks[0]}}
 	for len(stack) > 0 {
-		b := stack[len(stack)-1]
+		it := stack[len(stack)-1]
 		stack = stack[:len(stack)-1]
-		if b == in.Block() {
+		if it.b == in.Block() {
 			return false
 		}
-		for _, s := range b.Succs {
-			if cut[edge{b.Index, s.Index}] || avoid[s] {
+		for _, s := range succsVia(it.pred, it.b) {
+			if cut[edge{it.b.Index, s.Index}] || avoid[s] {
 				continue
 			}
-			if !seen[s.Index] {
-				seen[s.Index] = true
-				stack = append(stack, s)
+			k := blockVia{s.Index, it.b.Index}
+			if !seen[k] {
+				seen[k] = true
+				stack = append(stack, item{it.b, s})
 			}
 		}
 	}
